@@ -102,7 +102,31 @@ func Compare(a, b interface{}, coll string) int {
 		xb, yb := []byte(x), []byte(y)
 		switch lower(coll) {
 		case "nocase":
-			xb, yb = foldNoCase(xb), foldNoCase(yb)
+			// SQLite: sqlite3_strnicmp over the common length - which stops at the first
+			// difference AND at a NUL in the left string - then the length decides
+			n := len(xb)
+			if len(yb) < n {
+				n = len(yb)
+			}
+			fx, fy := foldNoCase(xb[:n]), foldNoCase(yb[:n])
+			for i := 0; i < n; i++ {
+				if fx[i] == 0 || fx[i] != fy[i] {
+					if d := int(fx[i]) - int(fy[i]); d != 0 {
+						if d < 0 {
+							return -1
+						}
+						return 1
+					}
+					break // a NUL in both: equal as far as strnicmp looks
+				}
+			}
+			switch {
+			case len(xb) < len(yb):
+				return -1
+			case len(xb) > len(yb):
+				return 1
+			}
+			return 0
 		case "rtrim":
 			xb, yb = rtrim(xb), rtrim(yb)
 		}
